@@ -496,8 +496,9 @@ example :
   decide +kernel
 
 /-
-Growth theorem, NOT proved beyond flat documents and nested objects (full statement kept;
-`C14_nested_roundtrip` proves it for every `JFields` document outside the listed exclusions;
+Growth theorem (full statement kept).  `C14_roundtrip_full` proves it for every document of the
+text-tape slice's full document type `FFields` outside the listed exclusions (parameter blocks and
+arrays that turn into key-value lists included); `C14_nested_roundtrip` is its `JFields` instance;
 `C14_roundtrip_flat`, `C14_roundtrip_nested`, `C14_roundtrip_arrays` and `C14_roundtrip_containers`
 are its earlier instances; parameter blocks and mixed containers — where the two known findings live — are decided
 by the L3 oracle on the real code):
